@@ -1,7 +1,7 @@
 """C02 - primitive wire types encode and decode exactly as the protocol prescribes."""
 import math, struct, uuid
 from fractions import Fraction
-import common, codec
+import common, codec, reent
 from codec import Buf
 from common import run_model, res_decode, exn_name
 
@@ -289,6 +289,7 @@ def run_type(chk, label, ty, good, bad, obj=None):
             chk.violation('malformed', 'mal:%s:%s' % (label, p.hex()), {'case': {'type': label, 'bytes': p.hex()}, 'observed': repr(got)[:300]}, '%s on %s: %s' % (label, p.hex()[:40], what))
     if encs:
         chk.sample(label, {'type': label, 'value': repr(encs[len(encs) // 2][0])[:80], 'bytes': encs[len(encs) // 2][1].hex()[:80]}, k=1)
+    return encs
 
 
 def run(chk):
@@ -297,8 +298,31 @@ def run(chk):
     # every type object is constructed before any is used: parametrised types over the same base type coexist in packet
     # definitions, so one must not disturb another
     objs = [codec.ft_obj(ty) for _label, ty, _g, _b in T]
+    every = []
     for (label, ty, good, bad), obj in zip(T, objs):
-        run_type(chk, label, ty, good, bad, obj)
+        encs = run_type(chk, label, ty, good, bad, obj) or []
+        pick = [encs[i] for i in sorted(set([0, len(encs) // 3, len(encs) // 2, len(encs) - 1]))] if encs else []
+        every += [(label, ty, obj, v, e) for v, e in pick if len(e) < 4000]
+    # the encoders / decoders behave like functions: nothing is carried over from a call whose socket failed, nothing is shared
+    # between threads (the verified outputs above are the reference)
+    reent.after_failure(chk, 'reentrancy', [(label, obj.send, v, e) for label, ty, obj, v, e in every])
+
+    def enc_call(obj, v):
+        def call():
+            b = Buf()
+            obj.send(v, b)
+            return bytes(b.out)
+        return call
+
+    def dec_call(obj, e):
+        def call():
+            b = Buf(e)
+            obj.read(b)
+            return b.pos
+        return call
+    rcases = [("%s.send" % label, enc_call(obj, v), e) for label, ty, obj, v, e in every]
+    rcases += [("%s.read" % label, dec_call(obj, e), len(e)) for label, ty, obj, v, e in every]
+    reent.threaded(chk, 'reentrancy', rcases, seconds=2.0 if chk.tier == 'thorough' else 0.6)
     chk.assumptions += ['Python struct / str.encode / bytes.decode / uuid.UUID are library code mirrored by executable Gallina re-implementations and validated here',
                         'floats: the harness maps Python floats to IEEE bit patterns through float.hex()/frexp, independently of struct',
                         'Angle.send / FixedPoint use binary64 arithmetic; the model is exact-rational; inputs within 1e-9 of a rounding tie are excluded']
